@@ -36,7 +36,12 @@ static void print_tab(const vnacal_t *vcp)
     }
 }
 
-static double mhz(long v) { return v == -999999 ? NAN : 1.0e6 * (double)v; }
+/* -999999 = NaN, -999998 = +infinity, -999997 = -infinity */
+static double special(long v, double scale)
+{
+    return v == -999999 ? NAN : v == -999998 ? INFINITY : v == -999997 ? -INFINITY : scale * (double)v;
+}
+static double mhz(long v) { return special(v, 1.0e6); }
 
 static void run_ct(void)
 {
@@ -134,9 +139,10 @@ static void run_ct(void)
 	double fv[NF] = { mhz(a[2]), mhz(a[3]), mhz(a[4]) };
 	ret_int(vnacal_new_set_frequency_vector(qn, a[1] ? NULL : fv));
     } else if (!strcmp(fn, "set_m_error")) {
-	double fv[2] = { mhz(a[3]), mhz(a[4]) };
-	double nf[3] = { (double)a[6] / 1000.0, (double)a[7] / 1000.0, (double)a[7] / 1000.0 };
-	double tr[3] = { (double)a[9] / 1000.0, (double)a[10] / 1000.0, (double)a[10] / 1000.0 };
+	/* frequency_vector: the third entry is the second + 1000 MHz (or the same special value) */
+	double fv[3] = { mhz(a[3]), mhz(a[4]), (a[4] <= -999997 && a[4] >= -999999) ? mhz(a[4]) : mhz(a[4] + 1000) };
+	double nf[3] = { special(a[6], 1e-3), special(a[7], 1e-3), special(a[7], 1e-3) };
+	double tr[3] = { special(a[9], 1e-3), special(a[10], 1e-3), special(a[10], 1e-3) };
 	ret_int(vnacal_new_set_m_error(qn, a[2] ? fv : NULL, (int)a[1], a[5] ? nf : NULL, a[8] ? tr : NULL));
     } else if (!strcmp(fn, "solve")) ret_int(vnacal_new_solve(qn));
     else if (!strcmp(fn, "add_calibration")) {
@@ -186,6 +192,18 @@ static void run_ct(void)
 	else
 	    ret_int(vnacal_apply(qv, (int)a[2], a[4] ? NULL : fv, (int)a[5], a[12] ? am : NULL, (int)a[13], (int)a[14],
 			a[8] ? NULL : b, (int)a[9], (int)a[10], (A(20) ? NULL : sp)));
+    } else if (!strcmp(fn, "make_vector")) {
+	/* vnacal_make_vector_parameter with three frequencies (MHz) */
+	double pf[3] = { mhz(a[0]), mhz(a[1]), mhz(a[2]) };
+	cx gv3[3] = { 0.1, 0.2, 0.3 };
+	ret_int(vnacal_make_vector_parameter(qv, pf, 3, gv3) < 0 ? -1 : 0);
+    } else if (!strcmp(fn, "make_corr")) {
+	/* vnacal_make_correlated_parameter of the scalar parameter: two sigma frequencies (MHz), two sigma values (1/1000) */
+	double sf[2] = { mhz(a[0]), mhz(a[1]) };
+	double sg[2] = { special(a[2], 1e-3), special(a[3], 1e-3) };
+	ret_int(vnacal_make_correlated_parameter(qv, h_scalar, sf, 2, sg) < 0 ? -1 : 0);
+    } else if (!strcmp(fn, "get_pv")) {
+	ret_cx(vnacal_get_parameter_value(qv, h_vector, mhz(a[0])));
     } else if (!strcmp(fn, "nan_down")) {
 	/* what a NaN handed to a scalar setter does later: a[0] = 0 p-value limit, 1 p tolerance, 2 et tolerance, 3 none
 	 * (base line); T8 2x2, five standards plus a double reflect of an unknown parameter (iterative solver), measurement
